@@ -167,8 +167,22 @@ impl Text for GitInputReference {
             ),
             format!("{:>pad$} : {}", "directory", self.dir),
             format!("{:>pad$} : .{}", "suffix", self.suffix),
-            format!("{:>pad$} : {}", "message", self.message.trim()),
+            format!("{:>pad$} : {}", "message", Self::one_line(&self.message)),
         ]
+    }
+}
+
+impl GitInputReference {
+    /// An item line is one line: a subject which spans several lines is folded
+    /// (otherwise it would break out of the metadata block, and out of the
+    /// comment block of equity export)
+    fn one_line(message: &str) -> String {
+        message
+            .split(['\n', '\r'])
+            .map(str::trim)
+            .filter(|line| !line.is_empty())
+            .collect::<Vec<_>>()
+            .join(" ")
     }
 }
 
